@@ -311,6 +311,41 @@ func ruleC06Stages(r *Run) {
 		if len(seq) == 0 || seq[0].k != 1 {
 			note("first", "a path through QuickMatch does not start with the direct match")
 		}
+		// completeness: a stage that did not run on this path (and that no earlier success made moot)
+		// was switched off by its own guard — not by the mere fact that another option is on
+		ran := map[int]bool{}
+		for _, s := range seq {
+			ran[s.k] = true
+		}
+		for k := 2; k <= 4; k++ {
+			if ran[k] || (succeeded != 0 && k > succeeded) {
+				continue
+			}
+			off := false
+			switch k {
+			case 2:
+				has, isHead := decTruth(func(cond ssa.Value) (bool, bool) {
+					b, ok := cond.(*ssa.BinOp)
+					if !ok || b.X != methodP {
+						return false, false
+					}
+					if sv, okc := constString(b.Y); !okc || sv != headC {
+						return false, false
+					}
+					return true, b.Op == token.EQL
+				})
+				off = has && !isHead
+			case 3:
+				has, on := decTruth(func(cond ssa.Value) (bool, bool) { return boolFieldFact(cond, fbF), true })
+				off = has && !on
+			case 4:
+				has, on := decTruth(func(cond ssa.Value) (bool, bool) { return boolFieldFact(cond, naF), true })
+				off = has && !on
+			}
+			if !off {
+				note("skipped", fmt.Sprintf("a path ends (outcome S%d) without running stage S%d although nothing on that path says the stage is switched off: e.g. with both fallback options on, a request whose method has no '/*' route never reaches the allowed-method discovery", succeeded, k))
+			}
+		}
 		key := fmt.Sprintf("S%d", succeeded)
 		var ks []string
 		for _, s := range seq {
@@ -323,6 +358,7 @@ func ruleC06Stages(r *Run) {
 		{"order", "stages run in the order S1 < S2 < S3 < S4 on every path"},
 		{"after-success", "once a stage succeeds no later stage runs"},
 		{"ignored", "every stage's result is tested before the next stage"},
+		{"skipped", "a stage is left out only when its own guard is off (or an earlier stage already succeeded)"},
 		{"guard2", "GET fallback only for HEAD"},
 		{"path2", "GET fallback on the same path"},
 		{"guard3", "fallback route only under HandleFallbackRoute"},
